@@ -270,7 +270,35 @@ func init() {
 		}
 		return x.call(fr, 0, newf, nil)
 	})
-	reg("(*sync.Pool).Put", func(fr *frame, args []Value) Value { return nil })
+	reg("(*sync.Pool).Put", func(fr *frame, args []Value) Value {
+		// "havoc" mode: an object given back to a pool may be taken and overwritten by anyone;
+		// for *lib.Buffer the first bytes of the pooled array become arbitrary.
+		x := fr.x
+		if x.cfg.Params["havoc"] != 1 {
+			return nil
+		}
+		itf, ok := args[1].(Iface)
+		if !ok || itf.T == nil || !strings.HasSuffix(itf.T.String(), "lib.Buffer") {
+			return nil
+		}
+		p, ok := itf.V.(Ptr)
+		if !ok || p == nil {
+			return nil
+		}
+		st, ok := (*p).(Struct)
+		if !ok || len(st) < 2 {
+			return nil
+		}
+		orig, ok := st[1].(Slice)
+		if !ok {
+			return nil
+		}
+		full := orig.S[:cap(orig.S)]
+		for i := 0; i < len(full) && i < 64; i++ {
+			x.store(&full[i], x.Fresh("havoc", 8))
+		}
+		return nil
+	})
 
 	reg("(*sync.Map).Load", func(fr *frame, args []Value) Value {
 		x := fr.x
